@@ -78,7 +78,16 @@ class C04(Prop):
             "without the centre shortcut, the single-site shortcut at the centre and a tensor product on 0-2 sites probed wherever the library has (re)established "
             "the gauge (centre None, or every edit since the last canonical_form was at the recorded centre); `ohist` = one TTNO through 2-4 rounds of as_matrix() + "
             "TTNO expectation value, between rounds a tensor gets new values with unchanged shapes (replace_tensor / assignment / in-place scaling / index assignment), "
-            "the caller overwrites the matrix it was handed, or continues with a deepcopy of the operator")
+            "the caller overwrites the matrix it was handed, or continues with a deepcopy of the operator; "
+            "[str5-C04] `scale` = badly scaled / tiny / huge / (nearly) orthogonal inputs on trees of 1-7 nodes (dimension-1 legs included), oracle only, float complex tensors, "
+            "ket, bra and TTNO rescaled independently node by node (tensors[id] = ... or replace_tensor): `gauge` per-node factors 10^U(-s,s), s in 3..12, optionally with random phases "
+            "or only one tensor tiny / huge, one node compensating so that the product is 1 (the represented vector is unchanged); `pow2` the same with exact powers of two; "
+            "`overall` product 10^U(-30,30) (tiny- and huge-norm states and operators); `ortho` ket and bra with exactly disjoint support on one site (exactly zero subtree block, "
+            "scalar product 0); `near` the same up to eps = 10^U(-9.5,-6). Probed: scalar_product(bra) both ways and with a bra node times a complex z of modulus 10^U(-8,8) "
+            "(conjugate-linearity), contract_two_ttns and expectation_value called directly, norm(), scalar_product() with and without the centre flag for ket and bra, TTNO and "
+            "tensor-product (0-3 sites, factors scaled by 10^U(-8,8)) expectation values, all of these again after canonical_form (REDUCED / FULL) incl. the single-site shortcut, and "
+            "TTNO.as_matrix(); reference = dense einsum of the CURRENT tensors, tolerance RELATIVE to the natural scale of the quantity (|<phi|psi>| <= |phi||psi|, "
+            "|<psi|O|psi>| <= |psi|^2 |O|_2, largest entry of the matrix): 1e-9, and 1e-12 for the products of the `near` pairs")
     clauses = [
         ("F", "for all trees and independent child orders of ket / bra / operator (wf_two / wf_three): contract_two_ttns and expectation_value succeed and return the closed "
               "network: no open axis, atoms = all atoms, every edge wire bound, glued pairs exactly (ket leg n, bra leg n) resp. (ket leg n, operator input n) and "
@@ -123,6 +132,11 @@ class C04(Prop):
               "after edits off the centre) and of repeated as_matrix() / expectation_value calls on ONE operator object whose tensors change value but not shape: dense "
               "oracle on the current tensors; no model tie (the theorems are per call: C04_canonical_form_shortcuts holds for EVERY wfs input state, whatever its centre attribute)"),
         # [/str-C04]
+        # [str5-C04]
+        ("V", "scale independence: the same equalities for networks whose node tensors differ from well-scaled ones by factors spread over up to 24 orders of magnitude "
+              "(product 1, or tiny / huge overall), for exactly and nearly orthogonal pairs, with tolerances relative to the natural scale of each quantity: dense oracle; "
+              "no model tie (the diagram theorems are independent of the tensor values)"),
+        # [/str5-C04]
     ]
     trusted_base = ["NumPy tensordot/transpose/reshape implement the diagram operations (validated exactly on integer tensors)",
                     "kernel contract of the semantic bridge (qr_contracts / iso_atom, premises of the O theorems): the Q factor of every recorded QR call is an isometry "
@@ -142,6 +156,12 @@ class C04(Prop):
         cases += [{"seed": rng.randrange(10 ** 9), "nnodes": rng.choice([1, 2, 3, 3, 4, 4, 5, 6, 7]), "kind": hk[j % len(hk)],
                    "ints": j % 4 == 1, "share": False} for j in range(nh)]
         # [/str-C04]
+        # [str5-C04] scale / conditioning families (oracle only; drawn AFTER everything above, which therefore stays what it was)
+        ns = ctx.scale(72, 900) * budget_scale
+        sk = ["gauge", "gauge", "gauge", "overall", "overall", "pow2", "ortho", "near"]
+        cases += [{"seed": rng.randrange(10 ** 9), "nnodes": rng.choice([1, 2, 2, 3, 3, 4, 4, 5, 6, 7]), "kind": "scale", "sub": sk[j % len(sk)],
+                   "ints": False, "share": False} for j in range(ns)]
+        # [/str5-C04]
         return cases
 
     def nontrivial(self, case):
@@ -151,6 +171,8 @@ class C04(Prop):
         c = Counter()
         for x in cases:
             c[x["kind"]] += 1
+            if x["kind"] == "scale":
+                c[f"scale:{x.get('sub')}"] += 1
             c[f"nodes={x['nnodes']}"] += 1
         return dict(c)
 
@@ -190,6 +212,14 @@ class C04(Prop):
             op, _ = self._build(rng, parents, [[d, d] for d in phys], bond3, TTNO, case["ints"], case["seed"] + 2)
             return self._run_ohist(case, rng, ket.ttn, op.ttn, ids)
         # [/str-C04]
+        # [str5-C04]
+        if kind == "scale":
+            bond2 = {i: rng.choice([1, 2, 3]) for i in range(1, n)}
+            bra, _ = self._build(rng, parents, [[d] for d in phys], bond2, TTNS, False, case["seed"] + 1)
+            bond3 = {i: rng.choice([1, 2, 2]) for i in range(1, n)}
+            op, _ = self._build(rng, parents, [[d, d] for d in phys], bond3, TTNO, False, case["seed"] + 2)
+            return self._run_scale(case, rng, ket.ttn, bra.ttn, op.ttn, ids, dims)
+        # [/str5-C04]
         psi = util.dense_vec(copy.deepcopy(ket.ttn), ids)
         ob = {"kind": kind, "kops": kops, "katoms": ket.atoms}
         if kind == "two":
@@ -431,6 +461,163 @@ class C04(Prop):
             trace.append([how, node])
         return {"kind": "ohist", "trace": trace, "probes": probes}
     # [/str-C04] -----------------------------------------------------------------------------------
+
+    # [str5-C04] -----------------------------------------------------------------------------------
+    # Badly scaled / tiny / huge / (nearly) orthogonal inputs.  The property text quantifies over ALL complex tensors and
+    # "whatever the gauges": multiplying node tensors by factors c_i leaves the represented vector (times prod c_i) what it
+    # is, however the factors are spread over the nodes.  Every quantity is judged against the dense einsum of the CURRENT
+    # tensors with a tolerance RELATIVE to the natural scale of the reference (Cauchy-Schwarz bound of the quantity).
+    RTOL = 1e-9
+    RTOL_NEAR = 1e-12      # nearly orthogonal pairs: the value is ~eps * scale, eps down to 3e-10
+
+    @staticmethod
+    def _factors(rng, n, sub):
+        """per-node scale factors; `gauge`/`pow2`: product 1 (up to rounding), `overall`: product 10^[-30,30]"""
+        spreads = [s_ for s_ in (3, 5, 6, 7, 8, 10, 12) if s_ * max(n - 1, 1) <= 40]
+        spread = rng.choice(spreads)
+        j = rng.randrange(n)
+        if sub == "pow2":
+            ex = [rng.randrange(-3 * spread, 3 * spread + 1) for _ in range(n)]
+            if n >= 2:
+                ex[j] = -(sum(ex) - ex[j])
+            return [complex(2.0 ** e) for e in ex], spread
+        fac = [10.0 ** rng.uniform(-spread, spread) for _ in range(n)]
+        if rng.random() < 0.35 and n >= 2:
+            # the shape of "one tensor tiny, one huge, the rest untouched"
+            fac = [1.0] * n
+            fac[rng.choice([i for i in range(n) if i != j])] = 10.0 ** rng.choice([-1, 1]) * 10.0 ** rng.uniform(-spread, spread)
+        if rng.random() < 0.4:
+            fac = [f * np.exp(1j * rng.uniform(0, 2 * np.pi)) for f in fac]
+        rest = complex(np.prod([f for i, f in enumerate(fac) if i != j])) if n >= 2 else 1.0
+        total = 1.0 if (sub == "gauge" and n >= 2) else 10.0 ** rng.uniform(-30, 30)
+        fac[j] = total / rest
+        return [complex(f) for f in fac], spread
+
+    @staticmethod
+    def _rescale(rng, ttn, ids, fac):
+        for k, f in zip(ids, fac):
+            if f.imag == 0:
+                f = f.real
+            t = ttn.tensors[k] * f
+            if rng.random() < 0.5:
+                ttn.tensors[k] = t
+            else:
+                ttn.replace_tensor(k, t)
+
+    def _run_scale(self, case, rng, ket, bra, op, ids, dims):
+        from pytreenet.contractions.state_state_contraction import contract_two_ttns
+        from pytreenet.contractions.state_operator_contraction import expectation_value
+        nprs = np.random.RandomState((case["seed"] + 13) % (2 ** 31))
+        sub = case.get("sub", "gauge")
+        n = len(ids)
+        info = {"sub": sub}
+        rtol = self.RTOL
+        if sub in ("ortho", "near"):
+            cand = [k for k in ids if dims[k] >= 2]
+            if not cand:
+                sub = "gauge"
+                info["sub"] = "gauge (no site of dimension >= 2)"
+            else:
+                x = rng.choice(cand)
+                kt = np.array(ket.tensors[x], dtype=complex)
+                bt = np.array(bra.tensors[x], dtype=complex)
+                kt[..., 1:] = 0
+                eps = 0.0
+                if sub == "near":
+                    eps = 10.0 ** rng.uniform(-9.5, -6)
+                    bt[..., 0] *= eps
+                    rtol = self.RTOL_NEAR
+                else:
+                    bt[..., 0] = 0
+                ket.tensors[x] = kt
+                bra.tensors[x] = bt
+                info.update({"node": x, "eps": eps})
+        if sub in ("gauge", "overall", "pow2"):
+            kf, spread = self._factors(rng, n, sub)
+            bf, _ = self._factors(rng, n, sub)
+            of, _ = self._factors(rng, n, sub)
+            self._rescale(rng, ket, ids, kf)
+            self._rescale(rng, bra, ids, bf)
+            self._rescale(rng, op, ids, of)
+            info.update({"spread": spread, "ket_log10": [round(float(np.log10(abs(f))), 2) for f in kf],
+                         "bra_log10": [round(float(np.log10(abs(f))), 2) for f in bf],
+                         "op_log10": [round(float(np.log10(abs(f))), 2) for f in of]})
+        psi = util.dense_vec(copy.deepcopy(ket), ids)
+        phi = util.dense_vec(copy.deepcopy(bra), ids)
+        O = util.dense_ttno(copy.deepcopy(op), ids)
+        npsi, nphi = float(np.linalg.norm(psi)), float(np.linalg.norm(phi))
+        nO = float(np.linalg.norm(O, 2))
+        probes = []
+        if not all(np.isfinite(v) and v > 0 for v in (npsi, nphi, nO)):
+            raise RuntimeError(f"harness: degenerate reference norms {npsi} {nphi} {nO}")
+
+        def rec(q, fun, ref, scale, rt=None):
+            try:
+                val = complex(fun())
+            except Exception as e:  # noqa
+                probes.append({"q": q, "error": f"{type(e).__name__}: {e}"})
+                return
+            probes.append({"q": q, "value": val, "dense": complex(ref), "scale": float(scale), "rtol": rt or rtol})
+
+        ip = np.vdot(phi, psi)
+        rec("ket.scalar_product(bra)", lambda: copy.deepcopy(ket).scalar_product(copy.deepcopy(bra)), ip, npsi * nphi)
+        rec("bra.scalar_product(ket)", lambda: copy.deepcopy(bra).scalar_product(copy.deepcopy(ket)), np.conj(ip), npsi * nphi)
+        rec("contract_two_ttns(ket, bra.conjugate())", lambda: contract_two_ttns(copy.deepcopy(ket), copy.deepcopy(bra).conjugate()), ip, npsi * nphi)
+        z = complex(10.0 ** rng.uniform(-8, 8) * np.exp(1j * rng.uniform(0, 2 * np.pi)))
+        b2 = copy.deepcopy(bra)
+        kk = rng.choice(ids)
+        b2.tensors[kk] = b2.tensors[kk] * z
+        rec(f"ket.scalar_product(bra with node {kk} times {z})", lambda: copy.deepcopy(ket).scalar_product(b2), np.conj(z) * ip, abs(z) * npsi * nphi)
+        for nm, st, vec, nv in (("ket", ket, psi, npsi), ("bra", bra, phi, nphi)):
+            rec(f"{nm}.norm()", lambda: copy.deepcopy(st).norm(), nv, nv, self.RTOL)
+            rec(f"{nm}.scalar_product()", lambda: copy.deepcopy(st).scalar_product(), nv ** 2, nv ** 2, self.RTOL)
+            rec(f"{nm}.scalar_product(use_orthogonal_center=False)", lambda: copy.deepcopy(st).scalar_product(use_orthogonal_center=False), nv ** 2, nv ** 2, self.RTOL)
+        ev = np.vdot(psi, O @ psi)
+        rec("ket.operator_expectation_value(TTNO)", lambda: copy.deepcopy(ket).operator_expectation_value(copy.deepcopy(op)), ev, npsi ** 2 * nO, self.RTOL)
+        rec("expectation_value(ket, TTNO)", lambda: expectation_value(copy.deepcopy(ket), copy.deepcopy(op)), ev, npsi ** 2 * nO, self.RTOL)
+        sites = rng.sample(ids, rng.randrange(0, min(3, n) + 1))
+        mats = {s_: (nprs.standard_normal((dims[s_],) * 2) + 1j * nprs.standard_normal((dims[s_],) * 2)) * 10.0 ** rng.uniform(-8, 8) for s_ in sites}
+        tpd = util.dense_tp(mats, ids, dims)
+        tps = npsi ** 2 * float(np.prod([np.linalg.norm(m_, 2) for m_ in mats.values()])) if mats else npsi ** 2
+        tpv = np.vdot(psi, tpd @ psi)
+        rec(f"ket.operator_expectation_value(TensorProduct on {sites})", lambda: copy.deepcopy(ket).operator_expectation_value(TensorProduct(dict(mats))), tpv, tps, self.RTOL)
+        # the same state in a canonical gauge: shortcuts
+        centre = sites[0] if sites and rng.random() < 0.6 else rng.choice(ids)
+        mode = rng.choice(["reduced", "reduced", "full"])
+        kc = copy.deepcopy(ket)
+        try:
+            kc.canonical_form(centre, mode=wmodel.MODES[mode])
+        except Exception as e:  # noqa
+            probes.append({"q": f"canonical_form({centre}, {mode})", "error": f"{type(e).__name__}: {e}"})
+            kc = None
+        if kc is not None:
+            tag = f"after canonical_form({centre}, {mode}): "
+            rec(tag + "norm()", lambda: kc.norm(), npsi, npsi, self.RTOL)
+            rec(tag + "scalar_product()", lambda: kc.scalar_product(), npsi ** 2, npsi ** 2, self.RTOL)
+            rec(tag + "scalar_product(use_orthogonal_center=False)", lambda: kc.scalar_product(use_orthogonal_center=False), npsi ** 2, npsi ** 2, self.RTOL)
+            rec(tag + "scalar_product(bra)", lambda: kc.scalar_product(copy.deepcopy(bra)), ip, npsi * nphi)
+            a = (nprs.standard_normal((dims[centre],) * 2) + 1j * nprs.standard_normal((dims[centre],) * 2)) * 10.0 ** rng.uniform(-8, 8)
+            sref = np.vdot(psi, util.dense_tp({centre: a}, ids, dims) @ psi)
+            ssc = npsi ** 2 * float(np.linalg.norm(a, 2))
+            rec(tag + f"single_site_operator_expectation_value({centre})", lambda: kc.single_site_operator_expectation_value(centre, a), sref, ssc, self.RTOL)
+            rec(tag + f"operator_expectation_value(TensorProduct on [{centre}])", lambda: kc.operator_expectation_value(TensorProduct({centre: a})), sref, ssc, self.RTOL)
+            rec(tag + f"operator_expectation_value(TensorProduct on {sites})", lambda: kc.operator_expectation_value(TensorProduct(dict(mats))), tpv, tps, self.RTOL)
+            rec(tag + "operator_expectation_value(TTNO)", lambda: kc.operator_expectation_value(copy.deepcopy(op)), ev, npsi ** 2 * nO, self.RTOL)
+        # as_matrix of the (badly scaled) operator, entrywise relative to its largest entry
+        try:
+            m, order = copy.deepcopy(op).as_matrix()
+            full = util.dense_ttn(copy.deepcopy(op), order)
+            nn = len(order)
+            ref = full.transpose([2 * j for j in range(nn)] + [2 * j + 1 for j in range(nn)])
+            rows = int(np.prod(ref.shape[:nn]))
+            ref = ref.reshape(rows, rows)
+            top = float(np.max(np.abs(ref)))
+            dev = float(np.max(np.abs(m - ref))) if m.shape == ref.shape else float("inf")
+            probes.append({"q": "TTNO.as_matrix() (max entrywise deviation)", "value": complex(dev), "dense": 0j, "scale": top, "rtol": self.RTOL})
+        except Exception as e:  # noqa
+            probes.append({"q": "TTNO.as_matrix()", "error": f"{type(e).__name__}: {e}"})
+        return {"kind": "scale", "info": info, "probes": probes}
+    # [/str5-C04] ----------------------------------------------------------------------------------
 
     @staticmethod
     def _preorder(ttn):
@@ -690,6 +877,17 @@ class C04(Prop):
                     return f"{pre}{where} (recorded centre {pr.get('centre')}): {pr['q']} = {pr['value']} != dense {pr['dense']}"
             return None
         # [/str-C04]
+        # [str5-C04]
+        if k == "scale":
+            for pr in ob["probes"]:
+                if "error" in pr:
+                    return f"scale family {ob['info']}: {pr['q']} raised {pr['error']}"
+                dev = abs(pr["value"] - pr["dense"])
+                if not (dev <= pr["rtol"] * pr["scale"]):
+                    return (f"scale family {ob['info']}: {pr['q']} = {pr['value']} != dense {pr['dense']} "
+                            f"(deviation {dev:.3e} > {pr['rtol']:g} * natural scale {pr['scale']:.3e})")
+            return None
+        # [/str5-C04]
         if k == "norm":
             if "norm_error" in ob:
                 return f"norm() raised {ob['norm_error']}"
